@@ -59,7 +59,7 @@ def s_space(rng, tier):
         m = [[rng.randint(-2, 3) for _ in range(3)] for _ in range(3)]
         if abs(det3(m)) <= 8 and frame_points(m) <= (400 if tier == "quick" else 2500):
             extra.append(m)
-    diag = [[[a, 0, 0], [0, b, 0], [0, 0, c]] for a in (-1, 1, 2, 3) for b in (1, 2, 3) for c in (1, 2)]
+    diag = [[[a, 0, 0], [0, b, 0], [0, 0, c]] for a in (-1, 1, 2, 3) for b in (-2, -1, 1, 2, 3) for c in (1, 2)]
     seen = set()
     out = []
     for m in sel + extra + diag:
